@@ -227,19 +227,64 @@ def check_cusparse_text(res, model):
     ol.cleanup_scratch()
 
 
+def check_cusparse_exec(res, model, scripts):
+    """channel C for the cuSPARSE variant: the rendered naunet.cpp (gpu) compiled for the host against the CUDA stand-in header and the
+    scripted mock CVode, one system.  The same oracle as for dense / sparse; the executed form of the recorded finding
+    C19-cusparse-ignores-failure (a failing CVode, Solve returns success) carries the finding id, anything else does not."""
+    d = ol.scratch_dir()
+    tl = TemplateLoader("cvode", "cusparse", "gpu")
+    with quiet():
+        tl.render("naunet", network(), path=d, save=True)
+    src = next(d.glob("src/naunet.c*"))
+    exe = d / "mock"
+    r = subprocess.run(["g++", "-std=c++17", "-O0", "-w", "-x", "c++", "-DUSE_CUDA", "-DMOCK_CUDA", "-D__global__=", "-D__device__=", "-D__host__=", "-D__constant__=",
+                        "-include", str(CXX / "cuda" / "cuda_shim.h"), "-I", str(CXX / "cuda"), "-I", str(CXX / "sundials"), "-I", str(d / "include"),
+                        "-o", str(exe), str(src), str(CXX / "mock_cvode.cpp")], stdout=subprocess.PIPE, stderr=subprocess.STDOUT, text=True)
+    if r.returncode != 0:
+        res.corr_disagreements += 1
+        res.violation("correspondence", f"rendered cvode/cusparse naunet.cpp does not compile for the host against the CUDA stand-in: {r.stdout[-600:]}", {"method": "cusparse"})
+        ol.cleanup_scratch()
+        return
+    for k, (cs, rs) in enumerate(scripts):
+        dt, y0 = (100.0, 5.0) if k % 3 else (3.0e7, 0.25)
+        case = {"kind": "c19", "method": "cusparse", "script": script_text(cs, rs), "dt": dt, "y0": y0}
+        out = run_bin(exe, d, script_text(cs, rs), repr(dt), repr(y0))
+        if len(out) != 6:
+            res.corr_disagreements += 1
+            res.violation("correspondence", f"cusparse: mock run produced {out}", case)
+            continue
+        flag, y, calls = int(out[0]), float(out[1]), int(out[2])
+        res.count("method=cusparse (executed)")
+        if model is not None:
+            m = model.call("solve.cusparse", q(dt), q(y0), ["ok" if e == "ok" else [e[0], q(e[1])] for e in cs])
+            my = Fraction(m[1]) if isinstance(m, list) and len(m) == 2 else None
+            if my is None or (m[0] == "success") != (flag == 0) or abs(float(my) - y) > 1e-9 * max(abs(y), 1.0):
+                res.corr_disagreements += 1
+                res.violation("correspondence", f"cusparse: implementation returns {flag} with state {y!r} after {calls} call(s), the model {m}", case)
+        if flag == 0 and abs(y - (y0 + dt)) > 1e-9 * dt:
+            first_fails = bool(cs) and cs[0] != "ok"
+            res.violation("oracle", f"cusparse (executed): Solve returns success but the state advanced by {y - y0!r}, requested {dt!r}: the flag of the failing CVode call "
+                                    f"is ignored (script {script_text(cs, rs)[:120]})",
+                          dict(case, finding="C19-cusparse-ignores-failure") if first_fails and calls == 1 else case)
+        if flag != 0 and not any(e != "ok" for e in cs):
+            res.violation("oracle", f"cusparse (executed): no integrator failure, yet Solve returns {flag}", case)
+    ol.cleanup_scratch()
+
+
 def run(res, info):
     rng = random.Random(res.seed * 7919 + 19)
     model = fw.Model() if info["ok"] else None
     res.rule = ("fault scripts for the scripted integrator: every first outcome (9 flags x 2 progress fractions), every second failure at the first 12 call "
                 "positions x 5 flags after 3 kinds of first failure, one failure per level up to six levels, failing re-initialisations, random scripts "
                 "of up to 160 calls with 1-8 failures; two (dt, y0) pairs; dense and sparse back-ends; Odeint observer budgets; non-trivial = at least one failure")
-    res.assumptions = ["the integrator obeys CVODE's contract (see trusted base)", "CUDA sources cannot be compiled here: the cuSPARSE branch is read as text"]
+    res.assumptions = ["the integrator obeys CVODE's contract (see trusted base)", "no nvcc here: the cuSPARSE branch of Solve is read as text and compiled for the host against a CUDA stand-in header (one system, the scripted integrator)"]
     scripts = gen_scripts(rng, 120 if res.tier == "quick" else 4000)
     tab = g_table()
     for method in ("dense", "sparse"):
         check_method(res, model, method, scripts, tab)
     check_odeint(res, model)
     check_cusparse_text(res, model)
+    check_cusparse_exec(res, model, scripts[:40] if res.tier == 'quick' else scripts[:400])
     if model:
         model.close()
 
